@@ -34,12 +34,13 @@ type genEvent struct {
 }
 
 type engine struct {
-	cs   Case
-	rec  *recorder
-	ctl  pipeline.InputPluginController
-	p    *pipeline.Pipeline
-	gen  [][]genEvent // per source
-	byID map[string]*genEvent
+	cs       Case
+	rec      *recorder
+	ctl      pipeline.InputPluginController
+	p        *pipeline.Pipeline
+	gen      [][]genEvent // per source
+	byID     map[string]*genEvent
+	bySrcOff map[[2]uint64]string
 
 	// pool monitor (C05)
 	pmu         sync.Mutex
@@ -49,6 +50,13 @@ type engine struct {
 	poolViol    []Viol
 	sizeClasses map[int]bool
 	waitersSeen int64
+}
+
+func (e *engine) idByOffset(src uint64, off int64) string {
+	if id, ok := e.bySrcOff[[2]uint64{src, uint64(off)}]; ok {
+		return id
+	}
+	return fmt.Sprintf("<unknown %d/%d>", src, off)
 }
 
 func (e *engine) poolViolation(sig, what string, w any) {
@@ -132,9 +140,12 @@ func (e *engine) generate() {
 			e.gen[s] = append(e.gen[s], g)
 		}
 	}
+	e.bySrcOff = map[[2]uint64]string{}
 	for s := range e.gen {
 		for i := range e.gen[s] {
-			e.byID[e.gen[s][i].ID] = &e.gen[s][i]
+			g := &e.gen[s][i]
+			e.byID[g.ID] = g
+			e.bySrcOff[[2]uint64{g.Src, uint64(g.Off)}] = g.ID
 		}
 	}
 }
@@ -144,11 +155,14 @@ type hookCounters struct {
 }
 
 // RunCase executes the case against the real pipeline and judges the log.
-func RunCase(cs Case) Result {
+func RunCase(cs Case, trace func(any)) Result {
 	res := Result{Case: cs, Stats: map[string]int64{}}
 	verifhook.Reset()
 	hc := &hookCounters{}
 	rec := &recorder{t0: time.Now(), stick: &hc.stick}
+	if cs.Trace {
+		rec.trace = trace
+	}
 	eng := &engine{cs: cs, rec: rec, outstanding: map[*pipeline.Event]int64{}, sizeClasses: map[int]bool{}}
 	cur = eng
 	eng.generate()
